@@ -30,7 +30,7 @@ func init() {
 			"with bytes allocated during the rejected call measured from runtime.MemStats against a control (the same number of incompressible bytes through the same wrapping): bound = control + 8 x limit + 4 MiB; metamorphic: genuine, non-conforming and corrupted messages presented raw and DEFLATE-compressed at a drawn level must give the same acceptance, data and error class; distinct = shape hash (family, limit, delta, entry point, padding family, level, outcome)",
 		Directed:   c12Directed,
 		Run:        c12Run,
-		MustHit:    []string{"family=boundary", "family=bomb", "family=metamorphic", "family=bomb-in-encrypted", "delta=-1", "delta=0", "delta=+1", "limit=unset", "limit=1", "limit=4096", "pad=after-root", "pad=inside-root", "alloc_measured", "router_peeked_first", "encoder=stored-blocks", "encoder=stored-blocks-text-clean", "encrypted_plaintext_compressed"},
+		MustHit:    []string{"family=boundary", "family=bomb", "family=metamorphic", "family=bomb-in-encrypted", "delta=-1", "delta=0", "delta=+1", "limit=unset", "limit=1", "limit=4096", "pad=after-root", "pad=inside-root", "alloc_measured", "router_peeked_first", "encoder=stored-blocks", "encoder=stored-blocks-text-clean", "encrypted_plaintext_compressed", "encoder=leading-empty-dynamic-block"},
 		RandomRuns: map[string]int{"quick": 400, "thorough": 6000},
 		Assumptions: []string{"allocation bound is checked for rejected over-limit inputs only (an accepted document is legitimately parsed into a tree several times its size); stack and allocator slack are not measured",
 			"each worker process runs one goroutine, so TotalAlloc deltas belong to the call"},
@@ -79,6 +79,10 @@ func c12Directed(tier string) [][]uint64 {
 				out = append(out, []uint64{2, 0, 0, ep, 0, kind, enc})
 			}
 		}
+	}
+	// a flushing compressor's leading empty blocks, every first octet (0x14 ... 0x4c), genuine and non-conforming
+	for hl := uint64(0); hl < 8; hl++ {
+		out = append(out, []uint64{2, 0, 0, hl % 6, 0, 7 * hl, 10}, []uint64{2, 0, 0, (hl + 3) % 6, 0, 7*hl + 1, 10})
 	}
 	return out
 }
@@ -168,7 +172,7 @@ func c12Run(r *core.Run) {
 	ep := c12EPs[t.Int(6, "c12.ep")]
 	padAfter := t.Int(2, "c12.pad") == 1
 	sel := t.Int(64, "c12.sel")
-	encSel := t.Int(10, "c12.level") // metamorphic family: which DEFLATE encoder presents the message
+	encSel := t.Int(11, "c12.level") // metamorphic family: which DEFLATE encoder presents the message
 
 	s := NewStd(r)
 	s.DrawLive()
@@ -397,7 +401,7 @@ func c12Run(r *core.Run) {
 				m := world.GenResponse(bt, idp, s.Fed, now, 1, false)
 				m.Sign = world.PlainSigOpts(s.IdPKey, s.IdPCert)
 				m.Assertions[0].Encrypt = &world.EncOpts{DataAlg: world.DataAlgs[sel%5], KeyAlg: world.KeyAlgs[0], Recipient: &world.Key(spKey).RSA.PublicKey,
-					Rand: core.NewDetReader(uint64(sel) + 5), CompressPlaintext: compressed}
+					Rand: core.NewDetReader(uint64(sel) + 5), CompressPlaintext: compressed, ZlibStyleEnd: (sel/7)%2 == 1}
 				x, err := idp.Issue(m, world.Layout{}, r.Sim.Now())
 				if err != nil {
 					r.HarnessError("issue: %v", err)
@@ -457,11 +461,18 @@ func c12Run(r *core.Run) {
 			r.Shape("metamorphic.na")
 			return
 		}
-		level := []int{6, 1, 9, 0, -1, 4, -2, 100, 101, 102}[encSel]
+		level := []int{6, 1, 9, 0, -1, 4, -2, 100, 101, 102, 103}[encSel]
 		var comp []byte
 		switch {
 		case level <= 9:
 			comp = world.Deflate([]byte(x), level) // -2 = Huffman only
+		case level == 103:
+			// a flushing compressor: an empty dynamic-Huffman block and an empty stored block come first. The
+			// first octet of the stream is then a printable character ('<' among them)
+			hl := 2 + (sel/7)%8 // (a function of the plan, so that directed cases cover every first octet)
+			comp = append(world.LeadingEmptyBlocks(hl), world.Deflate([]byte(x), []int{6, 1, 0}[t.Int(3, "c12.hlit.level")])...)
+			r.Probe("encoder=leading-empty-dynamic-block")
+			desc += fmt.Sprintf("/leading-empty-blocks(first-octet=%#x)", comp[0])
 		case level == 100:
 			// stored blocks of drawn sizes with drawn padding bits in every block header
 			rs := core.NewSplitMix(uint64(t.Draw(1<<32, "c12.stored")) + 3)
